@@ -8,7 +8,7 @@ import numpy as np
 from ..common import q2s, run_driver, seed_rng
 from ..qnum import Q, installed
 from ..sllib import TIME_LATTICE, Fixture, random_space_intervals, result_str
-from ..slchecks import RealOps, corr_vectors, describe, random_real_mesh, with_generated
+from ..slchecks import RealOps, corr_vectors, describe, make_curve, random_real_mesh, with_generated
 from .. import numref
 from .C04 import translate  # noqa: F401
 
@@ -267,4 +267,52 @@ def search(res, tier, boost=False):
                     res.violation('C07:evaluate-inaccurate:long-lived-operator', dict(curve=cname, iteration=k, elem=describe(e), t=t, x_hat=xh,
                                   value=float(a_), fresh_operator=float(b_), note='operator created on the mesh of iteration 0, element of the re-created mesh'))
                     break
+    # integer-typed requests: a user time grid given as Python ints ([0, 1, 2, 3]: the vertices of the unrefined mesh are
+    # ints), evaluation times / parameters that are ints or numpy integers (a node of the same grid).  The value is a
+    # function of the numbers, not of their types: the call with ints against the same call with floats.
+    try:
+        import contextlib as _cl
+        import io as _io
+        from src.mesh import MeshParametrized
+        from src.single_layer import SingleLayerOperator
+        for cname in ('UnitSquare', 'LShape') if tier == 'quick' and not boost else ('UnitSquare', 'LShape', 'PiSquare', 'UnitInterval'):
+            gamma = make_curve(cname)
+            for grid in ([0, 1, 2, 3], [0, 2, 4], [1, 2, 3, 5]):
+                try:
+                    with _cl.redirect_stdout(_io.StringIO()):
+                        mesh = MeshParametrized(gamma, initial_time_mesh=list(grid))
+                        if rng.random() < 0.5:
+                            mesh.refine_space(rng.choice(list(mesh.leaf_elements)))
+                        sl = {False: SingleLayerOperator(mesh), True: SingleLayerOperator(mesh, pw_exact=True)}
+                except AssertionError:
+                    continue          # (a grid the constructor refuses, e.g. one that does not start at 0)
+                elems = list(mesh.leaf_elements)
+                for _ in range(6 if tier == 'quick' else 30):
+                    e = rng.choice(elems)
+                    t_int = rng.choice([t for t in range(grid[0], grid[-1] + 3) if t > e.time_interval[0]])
+                    x0, x1 = e.space_interval
+                    xs = [float(x0) + (float(x1) - float(x0)) * rng.choice([0.25, 0.5, 0.75])]
+                    if float(x0) == int(x0) and rng.random() < 0.5:
+                        xs.append(int(x0))
+                    for xh in xs:
+                        for ttype, tval in (('int', int(t_int)), ('numpy.int64', np.int64(t_int))):
+                            calls = [('evaluate', lambda T, X: sl[False].evaluate(e, T, X, mesh.gamma_space.eval(X)))]
+                            if cname != 'Circle':
+                                calls.append(('evaluate_exact', lambda T, X: sl[True].evaluate_exact(e, T, X)))
+                            for nm, call in calls:
+                                try:
+                                    v_f = call(float(t_int), float(xh))
+                                    v_i = call(tval, xh)
+                                except (AssertionError, AttributeError, TypeError):
+                                    continue
+                                if v_f is None or v_i is None:
+                                    continue
+                                res.count(('int-args', cname, tuple(grid), nm, ttype, repr(e), t_int, xh), True)
+                                if abs(float(v_i) - float(v_f)) > 1e-6 * max(abs(float(v_f)), 1e-9):
+                                    res.violation('C07:%s-integer-arguments-change-value' % nm,
+                                                  dict(curve=cname, initial_time_mesh=list(grid), elem=describe(e), t=int(t_int), t_type=ttype,
+                                                       x_hat=xh, x_type=type(xh).__name__, value_integer_arguments=float(v_i),
+                                                       value_float_arguments=float(v_f)))
+    except ImportError:
+        pass
     res.notes['worst_rel_error'] = worst
